@@ -410,6 +410,15 @@ def build_mt(w):
     OLDC = 'old(clients)[client_id]'
     PSW = 'some(pickled_schema)'
     def part_mt(newv, present, oldv): return '%s == (unpk(some(%s)) if %s else %s)' % (newv, present.replace('not is_none(', '').rstrip(')') if False else present[len('not is_none('):-1], present, oldv)
+    # multi-tenant worker, compile(): the transaction state kept for REUSE_LAST_STATE_MARKER is replaced only by a compile that returns one; a compile outside a transaction
+    # (no state returned) leaves it alone -- the remote compiler server (server.MultiSchemaPool) keeps believing in it
+    w.contract(MTWK, 'compile', params={'client_id': 'Obj', 'dbname': 'Obj', 'compile_args': 'Seq[Obj]', 'compile_kwargs': 'Map[str,Obj]'},
+        state={'clients': 'Map[Obj,CS]', 'COMPILER': 'CompilerT', 'LAST_STATE': 'Opt[Obj]'}, returns='Tuple[Obj,Opt[Obj]]', modifies=['LAST_STATE'],
+        ensures=['implies(is_none(result[1]), LAST_STATE == old(LAST_STATE))', 'implies(not is_none(result[1]), not is_none(LAST_STATE) and some(result[1]) == pk(some(LAST_STATE)))',
+                 'map_same(clients, old(clients))'],
+        raises={'CompileError': dict(ensures=['LAST_STATE == old(LAST_STATE)']), 'KeyError': dict(ensures=['LAST_STATE == old(LAST_STATE)'])},
+        hints={'ext_funcs': {'CompilerT.compile_serialized_request': dict(params={'user_schema': 'Obj', 'global_schema': 'Obj', 'reflection_cache': 'Obj', 'database_config': 'Obj', 'system_config': 'Obj'},
+                                                                            returns='Tuple[Obj,Opt[Obj]]', raises={'CompileError': {}})}})
     w.contract(MTWK, '__sync__', params={'client_id': 'Obj', 'pickled_schema': 'Opt[PSch]', 'invalidation': 'Seq[Obj]'}, state={'clients': 'Map[Obj,CS]'}, ghost={'d0': 'Obj'}, returns='none',
         modifies=['clients'],
         requires=['implies(not is_none(pickled_schema), is_none(%s.dbs) or len(some(%s.dbs)) >= 0)' % (PSW, PSW)],
